@@ -326,7 +326,15 @@ impl<'tcx> Cx<'tcx> {
                 Const::Val(v, _) => self.constval(v, t),
                 Const::Ty(_, ct) => match ct.try_to_leaf() {
                     Some(si) => scalar_int(si, t),
-                    None => J::obj(vec![("opaque", s(format!("{}", ct)))]),
+                    None => {
+                        // pattern constants of type &str / &[u8] are valtrees
+                        let is_str = matches!(t.kind(), ty::Ref(_, inner, _) if inner.is_str());
+                        match ct.try_to_value().and_then(|v| v.try_to_raw_bytes(tcx)) {
+                            Some(b) if is_str => J::obj(vec![("str", s(String::from_utf8_lossy(b).to_string()))]),
+                            Some(b) => J::obj(vec![("bytes", J::Arr(b.iter().map(|x| J::Int(*x as i128)).collect()))]),
+                            None => J::obj(vec![("opaque", s(format!("{}", ct)))]),
+                        }
+                    }
                 },
             },
         };
